@@ -428,8 +428,103 @@ func ruleNamesOrder(c *Check, r *Repo) {
 		}
 		scan(f)
 	}
+	// the same clause by evaluation: after Compile's passes on grammars with actions, captures and
+	// undefined names (link appends rules for them), the names in RuleNames are the rule nodes of
+	// the tree's list in the same order — so rule constants and table indices agree
+	semBad, semUnd, semN := ruleOrderSemantics(r)
+	switch {
+	case semUnd != "":
+		c.Und("R-rule-order-semantics", "Compile/rule constants and rule table entries are in the same order", "", semUnd)
+	default:
+		c.Decide(len(semBad) == 0 && semN >= 3, "R-rule-order-semantics", "Compile/rule constants and rule table entries are in the same order", "",
+			fmt.Sprintf("%d grammars (actions, captures, undefined and unused names, a duplicate definition) evaluated through the first pass and link: RuleNames lists the rule nodes of the tree in list order", semN), strings.Join(semBad, "; "))
+	}
+	if len(bad) > 0 && semUnd == "" && len(semBad) == 0 && semN >= 3 {
+		c.OK("R-rule-order", "RuleNames and the rule list grow together", "", "the append sites are not in the form this rule reads ("+clip(strings.Join(bad, "; "), 160)+"); decided by R-rule-order-semantics")
+		return
+	}
 	c.Decide(len(bad) == 0, "R-rule-order", "RuleNames and the rule list grow together", "", fmt.Sprintf("%d append site(s): each appends the node it also pushes to the back of the tree's list, or the element of the in-order first-pass walk", n), strings.Join(bad, "; "))
 	c.Floor("R-rule-order", n, 1)
+}
+
+func ruleOrderSemantics(r *Repo) (bad []string, und string, n int) {
+	rg := findRegion(r)
+	if len(rg.problems) > 0 {
+		return nil, strings.Join(rg.problems, "; "), 0
+	}
+	type gr struct {
+		name  string
+		build func(fm *frontModel)
+	}
+	rule := func(fm *frontModel, name string, body func()) {
+		fm.call("AddRule", name)
+		body()
+		fm.call("AddExpression")
+	}
+	cases := []gr{
+		{"A <- 'a' B ; B <- 'b'", func(fm *frontModel) {
+			rule(fm, "A", func() { fm.call("AddCharacter", "a"); fm.call("AddName", "B"); fm.call("AddSequence") })
+			rule(fm, "B", func() { fm.call("AddCharacter", "b") })
+		}},
+		{"A <- <'a'> {act} U ; B <- {act2} A  (capture, actions, undefined U, unused B)", func(fm *frontModel) {
+			rule(fm, "A", func() {
+				fm.call("AddCharacter", "a")
+				fm.call("AddPush")
+				fm.call("AddAction", "_ = 0")
+				fm.call("AddSequence")
+				fm.call("AddName", "U")
+				fm.call("AddSequence")
+			})
+			rule(fm, "B", func() { fm.call("AddAction", "_ = 1"); fm.call("AddName", "A"); fm.call("AddSequence") })
+		}},
+		{"A <- B C ; C <- 'c' ; B <- {act} ; A <- 'x'  (a duplicate definition)", func(fm *frontModel) {
+			rule(fm, "A", func() { fm.call("AddName", "B"); fm.call("AddName", "C"); fm.call("AddSequence") })
+			rule(fm, "C", func() { fm.call("AddCharacter", "c") })
+			rule(fm, "B", func() { fm.call("AddAction", "_ = 2") })
+			rule(fm, "A", func() { fm.call("AddCharacter", "x") })
+		}},
+	}
+	for _, g := range cases {
+		func() {
+			defer func() {
+				if p := recover(); p != nil {
+					if u, ok := p.(undecided); ok {
+						und = g.name + ": " + u.msg
+						return
+					}
+					und = g.name + ": " + fmt.Sprint(p)
+				}
+			}()
+			fm := newFrontModel(r)
+			g.build(fm)
+			em := fm.m.runFull(rg)
+			if em.Err != "" {
+				und = g.name + ": " + em.Err
+				return
+			}
+			var names, listed []string
+			if s, ok := fm.tree.field("RuleNames").v.(*SliceV); ok && s != nil {
+				for _, e := range s.elems {
+					if o, ok := e.(*Obj); ok {
+						names = append(names, fm.m.strOf(o))
+					}
+				}
+			}
+			for _, k := range fm.m.kids(fm.tree.field("node").v.(*Obj)) {
+				if fm.m.typeOf(k) == "TypeRule" {
+					listed = append(listed, fm.m.strOf(k))
+				}
+			}
+			n++
+			if strings.Join(names, " ") != strings.Join(listed, " ") {
+				bad = append(bad, fmt.Sprintf("%s: RuleNames is [%s], the rule nodes of the tree are [%s]: rule constants and table indices diverge", g.name, strings.Join(names, " "), strings.Join(listed, " ")))
+			}
+		}()
+		if und != "" {
+			return nil, und, n
+		}
+	}
+	return bad, "", n
 }
 
 // expressionTypes: every node type constructed anywhere is known to the oracle.
